@@ -608,6 +608,10 @@ func liveCharge(g map[string]uint64, fn string, args [][]byte) uint64 {
 // c19Live: every goroutine works on accounts and tokens of its own, so WHETHER each of its operations succeeds must not
 // depend on what the other goroutines, the schedule flipper or the notifier do: the outcomes are compared with a
 // sequential baseline run of the same operation lists (no statement demands that an operation succeeds).
+// counters for the evidence: concurrent executions with GasProvided between the two schedules' charges, and how many of
+// them were admitted (ran under the cheap schedule)
+var liveTightOps, liveTightAdmitted int64
+
 func c19Live(lc *liveCase) (string, string, int) {
 	base, sig, msg, _ := c19LiveRun(lc, false, nil)
 	if sig != "" {
@@ -847,6 +851,12 @@ func c19LiveRun(lc *liveCase, concurrent bool, baseline [][]bool) ([][]bool, str
 	for t, rs := range results {
 		for j, o := range rs {
 			n++
+			if o.tight {
+				atomic.AddInt64(&liveTightOps, 1)
+				if o.err == nil {
+					atomic.AddInt64(&liveTightAdmitted, 1)
+				}
+			}
 			if o.pan != nil {
 				return nil, "live/" + o.fn + "/panic", fmt.Sprintf("goroutine %d op %d (%s) panicked: %v", t, j, o.fn, o.pan), n
 			}
@@ -926,6 +936,8 @@ func TestC19(t *testing.T) {
 			sig, msg, n := c19Live(lc)
 			st.Eval(int64(n))
 			st.AddExtra("concurrent_executions", int64(n))
+			st.AddExtra("concurrent_executions_with_gas_between_the_two_charges", atomic.SwapInt64(&liveTightOps, 0))
+			st.AddExtra("of_those_admitted_under_the_cheap_schedule", atomic.SwapInt64(&liveTightAdmitted, 0))
 			js, _ := json.Marshal(lc)
 			st.NT("live:" + string(js))
 			st.Label(sprintf("live/threads=%d", len(lc.Threads)))
